@@ -226,10 +226,12 @@ def get_model(
 
         logger.debug('Found "%s" association.', assoc.name)
 
+        # Subentries of same-named associations are named after the asset
+        # types the association declares, not the (sub)types of the assets
         assoc_name = lang_classes_factory.get_association_by_signature(
             assoc.name,
-            left_asset.type,
-            right_asset.type
+            assoc.left_field.asset.name,
+            assoc.right_field.asset.name
         )
 
         if not assoc_name:
